@@ -13,6 +13,8 @@ sequences with changing headers: gen_sequences; all other cases share processes 
 state-dependent failure is localised to the preceding compilations it needs (case.before, used by replay);
 number macros of every kind inside Hardcode.calc; @lazy calls: call form x argument kind x use site
 (gen_lazy_cross), call contexts (gen_lazy_contexts); the argument -> text step is part of the model.
+Strengthening round 3: bodies from a grammar of what precedes / follows a parameter occurrence, for every expansion kind incl.
+Hardcode.switch (gen_context); expansions with nothing to substitute but Hardcode.calc to evaluate (gen_fastpaths).
 """
 from __future__ import annotations
 
